@@ -69,11 +69,28 @@ def judge_calls(chk, items, outs):
     return [(f['call'], f['clause']) for v in verdicts for f in v['v']]
 
 
+def fresh_cache_probe(chk):
+    """the same calls in a process whose PLY table directory is empty (first use / cleaned TMPDIR): outcomes must not change"""
+    import tempfile, shutil
+    items = [('intel', 'mov eax ]'), ('att', 'movl %eax )'), ('intel', 'mov eax, ebx')]
+    d = tempfile.mkdtemp(prefix='plyfresh_', dir=core.scratch())
+    try:
+        outs = asmlib.fresh_asm(items, restore=False, env={'TMPDIR': d})
+    finally:
+        shutil.rmtree(d, ignore_errors=True)
+    for j, clause in judge_calls(chk, items, outs):
+        e = outs[j].get('exc') or {'exc': '', 'func': '', 'line': ''}
+        chk.violation({'clause': clause, 'exc': e['exc'], 'func': e['func'], 'line': e['line']},
+                      {'syntax': items[j][0], 'text': items[j][1], 'outcome': outs[j]['st'], 'exception': e, 'setting': 'empty PLY table directory'})
+    chk.cov['asm_fresh_cache_probe'] = [o['st'] for o in outs]
+    return len(items)
+
+
 def run_asm_part(tier, chk):
     quick = tier == 'quick'
     negative_control(chk)
     stats = collections.Counter()
-    total = 0
+    total = fresh_cache_probe(chk)
     for syn in ('intel', 'att'):
         texts, nex = gen(syn, 3 if quick else 4, 150 if quick else 1500, chk.seed, chk)
         items = [(syn, t) for t in texts]
